@@ -227,9 +227,9 @@ PROPS = {
     ),
     "C15": dict(
         verus=[("wrappers", {}), ("boxed", {}), ("wrappers2", {}), ("forceflag", {}), ("dims", {}), ("fmtstream", {})],
-        technique="Verus trait contracts (ghost item log / effect witnesses) on the extracted real forwarding impls: Merged, MergedRef, RootEntry, &T / Option / Box / Arc for Entry and InflectableEntry (write and sample_group), &T / Box / Arc for Value, every adapter method of the BoxEntry Dyn* bridge, ForceFlag's and the dimension wrappers' value-writer / value / entry-writer impls",
+        technique="Verus trait contracts (ghost item log / effect witnesses) on the extracted real forwarding impls: Merged, MergedRef, RootEntry, &T / Option / Box / Arc for Entry and InflectableEntry (write and sample_group), Cow for Entry, &T / Box / Arc / Cow for Value, every adapter method of the BoxEntry Dyn* bridge, ForceFlag's and the dimension wrappers' value-writer / value / entry-writer impls",
         level_text="Deductive proof (Verus/z3) that each wrapper's real write and sample_group bodies report exactly what its documented definition says: merged = first entry's items then second's (globals first), "
-                   "references / Box / Arc / RootEntry = the inner entry's items, an absent Option nothing - same for sample groups; plus a composition lemma for nested wrappers. "
+                   "references / Box / Arc / Cow (either variant: its Deref target) / RootEntry = the inner entry's items, an absent Option nothing - same for sample groups; plus a composition lemma for nested wrappers. "
                    "For the BoxEntry bridge: each of the 14 adapter methods (EntryWriterToDyn / EntryWriterFromDyn timestamp, value, config; ValueWriterToDyn / ValueWriterFromDyn string, metric, error; ValueToDyn::write; "
                    "DynEntry / BoxEntry sample_group) forwards exactly one call with the same content - for metric, the same observations and dimensions in the same order for any iterator argument "
                    "(size_hint is only a bound). ForceFlag<E>, WithDimensions<E, N> and WithGlobalDimensions<E, N> preserve the wrapped entry's sample group (their own sample_group, or the trait default instantiated when they do not define one). "
@@ -238,10 +238,10 @@ PROPS = {
                    "Dimensions (per-value `Wrapper` in metrique-writer-core, ValueWriterWrapper / ValueWrapper / EntryWriterWrapper of WithGlobalDimensions): the value-writer wrappers forward string / error unchanged and metric with exactly the same "
                    "observations, unit and flags and the wrapper's dimensions appended AFTER the ones the value already had, in order; the entry-writer wrappers forward timestamp / config unchanged and every value under the same name "
                    "with that decoration - WithGlobalDimensions except on deny-listed names, which pass through undecorated; <WithDimensions as Value>::write decorates with exactly its own dimensions. "
-                   "NOT reached: <WithDimensions / WithGlobalDimensions as Entry>::write (the one-line composition that wraps the caller's writer in the verified entry-writer wrapper) and the Cow impls.",
+                   "NOT reached: <WithDimensions / WithGlobalDimensions as Entry>::write (the one-line composition that wraps the caller's writer in the verified entry-writer wrapper) and <Option<T> as Value>::write.",
         level_note="Trusted: the trait-level contract 'an entry appends exactly items()' as the meaning of transparency; rewrites R14 (argument-position impl Trait as a named generic), R23 (return-position impl Iterator as an associated type / stand-in), "
                    "R24 ([].into_iter()), B1 (slice.iter().copied()), D2 (slice.iter().map(|(c, i)| (&**c, &**i)) -> one (&str, &str) per (Cow, Cow) pair, same text), D3 (&smallvec as a slice), R30 (unit tail expression made a statement), R31 (closure tuple-pattern parameter desugared to a `let`); std's Iterator (incl. map with the closure's contract and chain as concatenation) / IntoIterator / FromIterator / Into restated as traits over the element sequence; Verus + z3. "
-                   "Three one-line compositions of the bridge are assumed, not proved: ValueFromDyn::write and BoxEntry::write (unsizing of `&mut T` to `&mut dyn Trait` is unsupported by this Verus) and <E as DynEntry>::write (needs a frame condition on the temporary adapter's inner reference).",
+                   "std::borrow::Cow is declared with its two real variants and an assumed Deref / as_ref (one target value). Three one-line compositions of the bridge are assumed, not proved: ValueFromDyn::write and BoxEntry::write (unsizing of `&mut T` to `&mut dyn Trait` is unsupported by this Verus) and <E as DynEntry>::write (needs a frame condition on the temporary adapter's inner reference).",
         explanation="forwarding wrappers and the boxed-entry bridge against ghost logs",
         assumptions=["every leaf Entry / Value implementation meets the trait contract (it is the definition of what the entry reports)",
                      "ValueFromDyn::write, BoxEntry::write and <E as DynEntry>::write (each a single forwarding call that wraps its argument in an adapter) meet the forwarding contract"],
